@@ -26,7 +26,8 @@ ASSUMPTIONS = ["interaction atom tuples compared up to reversal; impropers are w
 CASE_TIMEOUT = 180
 WALL = {"quick": 900, "thorough": 7200}
 REQUIRED = {"files_reread": 500, "atoms_compared": 5000, "interactions_compared": 5000, "conditional_interactions": 50,
-            "residue_graphs_compared": 100, "gen_coords_consumed": 8, "library_cases": 5}
+            "residue_graphs_compared": 100, "gen_coords_consumed": 8, "library_cases": 5,
+            "with_modification_definitions": 50}
 
 
 def plan(tier, seed):
@@ -110,6 +111,16 @@ def run_case(cid, rng, workdir):
         return run_lib(cid, rng, workdir, res)
     case = paramcase.build(rng, profile="full", nmin=1, nmax=7, max_links=4,
                            link_opts={"p_remove": 0.08, "p_cond": 0.25, "p_edge": 0.15, "linktypes": True, "p_log": 0.25})
+    if rng.random() < 0.25:
+        # node keys that are not 0..n-1 and a force field that defines (unused) modifications
+        from .C13 import relabel
+        case["graph"], mode = relabel(rng, case["graph"])
+        case["descr"]["node_keys"] = mode
+        if any(n == "case.ff" for n, _ in case["files"]):
+            mods = "[ modification ]\nN-ter\n[ atoms ]\nA0 {\"resname\": \"RA\", \"replace\": {\"charge\": 1.0}}\n" \
+                   "[ modification ]\nC-ter\n[ atoms ]\nA0 {\"resname\": \"RA\", \"replace\": {\"charge\": -1.0}}\n"
+            case["files"] = [(n, t + mods if n == "case.ff" else t) for n, t in case["files"]]
+            bump(res, "with_modification_definitions")
     ev = PC.evaluate(case, workdir)
     res["sig"] = sig_of([case["files"], case["graph"]])
     res["sample"] = case["descr"]
@@ -188,7 +199,10 @@ def run_case(cid, rng, workdir):
                     violation(res, "residue-graph-edges-differ", "recovered residue edges %s, requested %s" %
                               (sorted(map(sorted, got_edges)), sorted(map(sorted, want_edges))), w())
             # gen_coords consumes it
-            if rng.random() < 0.04 and len(ev["obs"]["atoms"]) <= 25:
+            # (improper dihedrals with a non-zero reference are left out: template generation retries a deterministic
+            #  layout up to 50000 times when the initial sign is wrong, which is slow but not a property matter)
+            has_improper = any(p and p[0] == "2" for (_a, p, _c) in ev["obs"]["inter"].get("dihedrals", {}))
+            if rng.random() < 0.06 and len(ev["obs"]["atoms"]) <= 25 and not has_improper:
                 _consume(res, workdir, "rr.top", w)
     return res
 
